@@ -61,8 +61,10 @@ VARIABLES
 L == INSTANCE HbLayout WITH UMAX <- %d, IMAX <- %d, GW <- %d, BITS <- 64
 """
 
-TAIL = """
+def tail(W):
+    return """
 Next == UNCHANGED <<kind, x, y, z, e1, e2, e3>>
+\\* STRICT form: the recorded value equals the specification's arithmetic (kinds 1-3); kinds 0 and 4 are the symbolic C17 obligations
 Inv ==
   /\\ (kind = 0 => L!BucketsOK(x, y))
   /\\ (kind = 1 => L!C2B(x, y) = e1)
@@ -70,13 +72,18 @@ Inv ==
                   IN ((r.ok <=> (e1 = 1)) /\\ (r.ok => (r.len = e2 /\\ r.off = e3))))
   /\\ (kind = 3 => L!CapOfMask(x) = e1)
   /\\ (kind = 4 => L!LayoutOK(x, y, z))
+\\* PROPERTY form for recorded values: the policy-free statement of C17 (kind 1: e2 = recorded capacity of the chosen bucket count)
+InvP ==
+  /\\ (kind = 1 => (e1 = -1 \\/ (e1 \\in L!Pows /\\ e2 >= x /\\ e2 < e1)))
+  /\\ (kind = 2 => ((e1 = 1) => (e3 >= x * z /\\ e3 %% y = 0 /\\ e2 >= e3 + z + %d /\\ e2 + (L!CtrlAlignL(y) - 1) <= %d)))
+  /\\ (kind = 3 => (e1 <= x))
 ====
-"""
+""" % (W, I64)
 
 
 def module(name, W, disjuncts):
     body = "Init ==\n" + "\n".join("  \\/ (%s)" % d for d in disjuncts)
-    return HEAD % (name, U64, I64, W) + body + TAIL
+    return HEAD % (name, U64, I64, W) + body + tail(W)
 
 
 def dj(kind, x, y, z, e1=0, e2=0, e3=0):
@@ -145,7 +152,7 @@ def validate_recorded(run, backend, scan_bits, window, nbig, release=False):
                    "mask": o.get("mask", 0), "ea": o.get("ea", 1), "buckets": o.get("buckets", 1), "ok": o.get("ok", 0),
                    "len": o.get("len", 0), "align": o.get("align", 0), "off": o.get("off", 0), "tsize": o.get("tsize", 0),
                    "ctrl_align": o.get("ctrl_align", 0), "start": o.get("start", 0), "n": o.get("n", 0), "ps": o.get("ps", []),
-                   "perm": o.get("perm", 0)}
+                   "perm": o.get("perm", 0), "cm": o.get("cm", 0)}
             f.write(json.dumps(rec) + "\n")
     res = vlib.tlc_trace(sp, W, run.prop, module="HbLayoutTrace.tla", cfg="HbLayoutTrace.cfg")
     run.traces.append({"name": "layout-small", "backend": backend, "records": len(small), **{k: res.get(k) for k in ("steps", "rejected", "line", "reasons", "wall_s")}})
@@ -171,7 +178,7 @@ def validate_recorded(run, backend, scan_bits, window, nbig, release=False):
             if key in seen:
                 continue
             seen.add(key)
-            ds.append(dj(1, "\\in %d..%d" % (a, b), "= %d" % size, 0, v))
+            ds.append(dj(1, "\\in %d..%d" % (a, b), "= %d" % size, 0, v, int(o.get("cm", "0"))))
             recs.append(o)
         elif o["f"] == "lay":
             key = ("lay", o["size"], o["ea"], o["buckets"])
@@ -213,15 +220,22 @@ def validate_recorded(run, backend, scan_bits, window, nbig, release=False):
             if r["ok"]:
                 nval += len(chunks[ci])
             elif r.get("violated") or r.get("counterexample"):
-                # find the offending record by bisection over the chunk (small chunks: re-run singly)
-                bad = None
+                # strict mismatch: decide record by record whether the policy-free statement of C17 still holds (drift) or not (violation)
                 for i in chunks[ci]:
-                    r1 = apalache(module("One_%s" % backend, W, [ds[i]]), "One_%s" % backend)
-                    if not r1["ok"]:
-                        bad = recs[i]
+                    nm1 = "One_%s" % backend
+                    r1 = apalache(module(nm1, W, [ds[i]]), nm1)
+                    if r1["ok"]:
+                        nval += 1
+                        continue
+                    r2 = apalache(module(nm1, W, [ds[i]]), nm1, inv="InvP")
+                    if r2["ok"]:
+                        run.drift += 1
+                        run.notes.append("DRIFT: recorded arithmetic differs from HbLayout but satisfies C17: %s" % json.dumps(recs[i])[:200])
+                        nval += 1
+                    else:
+                        run.violation("recorded 64-bit value / interval of the real arithmetic violates C17: %s" % json.dumps(recs[i]),
+                                      {"kind": "layout", "backend": backend, "record": recs[i], "apalache": r2.get("counterexample")}, signature="layout:big")
                         break
-                run.violation("recorded 64-bit value / interval of the real arithmetic differs from HbLayout: %s" % json.dumps(bad),
-                              {"kind": "layout", "backend": backend, "record": bad, "apalache": r.get("counterexample")}, signature="layout:big")
             else:
                 run.tool_error("Apalache failed on recorded layout values: %s" % r.get("out"))
     run.extra.setdefault("apalache_validated_records", 0)
